@@ -1,4 +1,13 @@
 CHECKS = {
+ "C07": {
+  "text": "Generated models (mixed parameter kinds, batch items, frozen parameters, residual programs from C04's grammar, second outputs, "
+          "targets, SPD weights, kernels, correctors, solvers, strategies, clamps, vectorize) and ONE optimizer step each, compared with an "
+          "independent float64 reference built from a finite-difference tangent-space Jacobian, own closed-form rho', own weight expansion: "
+          "the linear system handed to the (wrapped) solver at every LM trial and the retracted update. Samples the model space.",
+  "design_ref": "DESIGN.md section 3, C07",
+  "note": "Forward residuals come from pypose ops (C01-C05); kernels limited to the built-in ones; ill-conditioned GN cases only assert the normal equations.",
+  "technique": "property-based testing: Hypothesis-generated models against a reference implementation of the GN/LM linear system",
+ },
  "C06": {
   "text": "Exhaustive enumeration of broadcastable lshape pairs (extents {0,1,2,3}; rank<=2 quick, rank<=3 thorough) x group types x 9 binary "
           "ops and of all lshapes x 8 ltypes x 12 unary ops against item-by-item application; generated programs over a call template for "
